@@ -84,6 +84,30 @@ pub fn run(ctx: &Ctx) {
         let extra_initial_sections = init.as_ref().map(|t| ref_parse(t).len()).unwrap_or(0) - init_ids.len();
         let mut ok_history = true;
         for (si, st) in steps.iter().enumerate() {
+            // every other history also tries names the keyring format cannot hold (more than 128 BYTES, or
+            // empty): the command must refuse them and leave the file exactly as it was
+            if h % 2 == 1 && si % 2 == 0 {
+                let bad = [("\u{e9}".repeat(100), "100 characters / 200 bytes"), ("\u{1f511}".repeat(40), "40 characters / 160 bytes"), ("n".repeat(129), "129 ASCII bytes"), (String::new(), "empty")];
+                let (bad_name, what) = &bad[(h / 2 + si) % bad.len()];
+                let before = std::fs::read(&f).ok();
+                let o = Cmd::new(&wd.path, &["key", "generate", "-o", "keyring.txt", "--env-pass"]).pass("pw").stdin(Stdin::Bytes(format!("{}\n", bad_name).into_bytes())).run();
+                ctx.eval();
+                let after = std::fs::read(&f).ok();
+                let d = || json!({"initial_state": sname, "step": si, "invalid_name": what, "exit": o.exit.describe(), "stderr": o.stderr_s(), "file_len_before": before.as_ref().map(|b| b.len()), "file_len_after": after.as_ref().map(|b| b.len())});
+                if o.exit != Exit::Code(1) || after != before {
+                    // accepted: the file must at least still be a keyring in which everything is usable
+                    let text = String::from_utf8_lossy(after.as_deref().unwrap_or_default()).into_owned();
+                    if !text.is_empty() && !matches!(guarded(|| Keyring::new(&text)), Ok(Ok(_))) {
+                        ctx.violation("C14:keyring-no-longer-parses:after-a-name-the-format-cannot-hold", d());
+                        ok_history = false;
+                        break;
+                    }
+                    ctx.violation("C14:key-generate-accepted-a-name-the-format-cannot-hold", d());
+                    ok_history = false;
+                    break;
+                }
+                ctx.seen("invalid name refused, keyring untouched");
+            }
             let before = std::fs::read(&f).ok();
             let o = Cmd::new(&wd.path, &["key", "generate", "-o", "keyring.txt", "--env-pass"]).pass(&st.password).stdin(Stdin::Bytes(format!("{}\n", st.name).into_bytes())).run();
             ctx.eval();
@@ -212,4 +236,5 @@ pub fn run(ctx: &Ctx) {
     ctx.require("step into absent", 1);
     ctx.require("step into empty", 1);
     ctx.require("end of history", 4);
+    ctx.require("invalid name refused, keyring untouched", 5);
 }
